@@ -320,9 +320,11 @@ func (e *eventV1) StickyEndTime(received time.Time) time.Time {
 func newEventFromUntrustedJSONV1(eventJSON []byte, roomVersion IRoomVersion) (PDU, error) {
 	// The path-based readers used below find members in text that is not JSON
 	// at all, and do not agree with each other on what they find there.
-	if !gjson.ValidBytes(eventJSON) || !utf8.Valid(eventJSON) {
+	if !gjson.ValidBytes(eventJSON) || !utf8.Valid(eventJSON) || hasUnpairedSurrogateEscape(eventJSON) {
 		// (JSON is UTF-8: encoding/json would read an invalid byte as U+FFFD,
-		// the byte-level readers would not)
+		// the byte-level readers would not; the escape of half a surrogate pair
+		// is dropped from the canonical form, so neither the content hash nor
+		// the signatures would cover it)
 		return nil, BadJSONError{fmt.Errorf("gomatrixserverlib: event is not valid JSON")}
 	}
 	if r := gjson.GetBytes(eventJSON, "_*"); r.Exists() {
